@@ -10,7 +10,7 @@ PROP_MODULES = ['TxV.Props.C12']
 AUDIT = 'Audit/C12.lean'
 ANCHORS = ['txtorcon/torcontrolprotocol.py']
 RULE = ('single pairs: every value of length <= N over the critical alphabet {a, space, tab, ", \\, =, CR, LF} '
-        '(N=4 quick, 6 thorough); then random lists of 1..6 pairs with str/int/bool values, keys incl. unusable ones; '
+        '(N=4 quick, 6 thorough); then random lists of 1..6 pairs with str/int/bool/other-object values, keys incl. unusable ones; '
         'a case is non-trivial when some value needs quoting or some key is unusable; distinct = distinct argument lists')
 EXHAUSTIVE = {'quick': False, 'thorough': False}
 TRUSTED = ["Tor's SETCONF argument grammar as transcribed in lean/TxV/Spec/KvLine.lean (numeric escapes rejected) and, "
@@ -101,6 +101,7 @@ def corpus():
         {'args': [['A', ['s', '']], ['B', ['i', -5]], ['C', ['b', True]]]},
         {'args': []},
         {'args': [['a b', ['s', 'x']]]},
+        {'args': [['DataDirectory', ['o', '/home/user/my tor data']]]},
     ]
 
 
@@ -119,6 +120,8 @@ def gen_cases(rng, tier):
                 v = ['i', rng.choice([0, 1, -1, 9050, 2 ** 40, -77])]
             elif kind < 0.2:
                 v = ['b', rng.random() < 0.5]
+            elif kind < 0.3:
+                v = ['o', rng.choice(['/home/user/my tor data', 'a"b', 'x\ty', '[1, 2]', 'plain', 'back\\slash', ''])]
             else:
                 ln = rng.choice([0, 1, 2, 3, 5, 8, 13, 40])
                 v = ['s', ''.join(rng.choice(ALPHA + ['b', 'c', '0', "'", ',', ':', '/', '\x0b', '\x0c', '~', '\x7f', '\x01'])
@@ -127,8 +130,18 @@ def gen_cases(rng, tier):
         yield {'args': args}
 
 
+class StrObj(object):
+    """a non-string argument (think pathlib.Path): only its str() matters"""
+
+    def __init__(self, text):
+        self.text = text
+
+    def __str__(self):
+        return self.text
+
+
 def pyval(v):
-    return {'s': lambda x: x, 'i': int, 'b': bool}[v[0]](v[1])
+    return {'s': lambda x: x, 'i': int, 'b': bool, 'o': StrObj}[v[0]](v[1])
 
 
 def run_impl(case):
@@ -154,7 +167,7 @@ def run_impl(case):
 
 
 def enc_val(v):
-    if v[0] == 's':
+    if v[0] in ('s', 'o'):
         return 's' + hexs(v[1])
     if v[0] == 'i':
         return 'i%d' % v[1]
